@@ -142,6 +142,10 @@ def make_config(rng, darsia, idx):
         if kind == "float":
             return float(rng.uniform(0.1, 2.0)), None
         arr = rng.uniform(0.1, 2.0, size=shape)
+        if dim > 1 and idx % 4 == 1:
+            # a weight that depends on the position along the last axis only (e.g. a depth map of a tilted plate):
+            # all rows / slabs are identical
+            arr = np.broadcast_to(rng.uniform(0.1, 2.0, size=shape[-1:]), shape).copy()
         if kind == "image":
             return arr, darsia.Image(arr.copy(), space_dim=dim, dimensions=list(dims), scalar=True)
         return arr, None
